@@ -7,7 +7,11 @@ def split(inp):
     def skip_list(width):
         nonlocal i
         n=inp[i]; i+=1+n*width
-    skip_list(6); skip_list(3); skip_list(10)
+    skip_list(6)
+    nj=inp[i]; i+=1
+    for _ in range(nj):
+        i+=3; i+=1+2*inp[i]
+    skip_list(10)
     head=inp[:i]; n=inp[i]; i+=1
     ops=[]
     for _ in range(n):
